@@ -81,6 +81,11 @@ func (E *Engine) VerifyFunc(name string) (rep FuncReport) {
 	defer func() {
 		if r := recover(); r != nil {
 			E.Obls = E.Obls[:start]
+			for k := range E.Trivial {
+				if strings.HasPrefix(k, name+":post:") {
+					delete(E.Trivial, k)
+				}
+			}
 			switch e := r.(type) {
 			case unsupportedErr:
 				rep.Unsupp = e.msg
